@@ -1062,7 +1062,10 @@ class SyncManager(Runnable):
                         sync.ignore(ignore_reason)
                         return FINISHED
 
-        if sync[synced].oid:
+        if sync[synced].oid and sync[synced].exists == MISSING:
+            # the object was looked up and is gone already: with ids that are paths, whatever carries this id now is a newer object
+            log.debug("%s already missing, nothing to delete", debug_sig(sync[synced].oid))
+        elif sync[synced].oid:
             try:
                 log.debug("deleting %s", debug_sig(sync[synced].oid))
                 self.providers[synced].delete(sync[synced].oid)
